@@ -376,8 +376,10 @@ def explore_strace(base: str, spec: dict) -> core.Acc:
     # in-process model log
     ctl, raised, dest0, root0, _ = run_once(base, spec)
     model = [(op, d) for _, op, d in ctl.log]
-    with open(dest0, 'rb') as f:
-        new_hash = sha(f.read()) if raised is None else None
+    new_hash = None
+    if raised is None:
+        with open(dest0, 'rb') as f:
+            new_hash = sha(f.read())
     old_hash = sha(OLD) if spec.get('old') else None
     # profile run under strace
     root = fresh_dir(base, 'st')
